@@ -254,3 +254,132 @@ def c19_views_after_conversion(ctx, o3):
                                       "entries_of_current_weight_changed_by_editing_view": changed, "expected": v.numel()}, True)
                         return
             del first
+
+
+# ----------------------------------------------------------------------------------------------------------------------
+# generic API oracle: (1) call – mutate the result in place – call again must give the same value (no shared storage, no
+# stale cache);  (2) float64 arguments give the same float64 value under either process default dtype (1e-12)
+# ----------------------------------------------------------------------------------------------------------------------
+def _api_registry(group):
+    from e3nn import o3, math as em, io
+    t = lambda *v: torch.tensor(v, dtype=torch.float64)  # noqa: E731
+    a, b, c = t(0.3, -1.2, 7.0), t(1.1, 0.4, 2.5), t(-0.7, 2.9, -4.0)
+    R = lambda: o3.angles_to_matrix(a, b, c)  # noqa: E731
+    q = lambda: o3.angles_to_quaternion(a, b, c)  # noqa: E731
+    ax = lambda: torch.nn.functional.normalize(t(1.0, 2.0, -0.5), dim=0).expand(3, 3).clone()  # noqa: E731
+    an = lambda: t(0.4, 1.9, 3.0)  # noqa: E731
+    x = lambda: torch.tensor([[0.3, -1.2, 0.7], [0.0, 1.0, 0.0], [2.0, 0.1, -0.4], [0.0, 0.0, -3.0]], dtype=torch.float64)  # noqa: E731
+    reg = []
+    if group == "C03":
+        for l in (0, 1, 2, 5):
+            reg.append((f"wigner_D({l})", lambda l=l: o3.wigner_D(l, a, b, c)))
+        reg += [("Irrep('2o').D_from_angles(k)", lambda: o3.Irrep("2o").D_from_angles(a, b, c, torch.tensor([0, 1, 1]))),
+                ("Irreps.D_from_angles", lambda: o3.Irreps("0e+2x1o+2e").D_from_angles(a, b, c)),
+                ("Irreps.D_from_quaternion", lambda: o3.Irreps("0e+2x1o+2e").D_from_quaternion(q())),
+                ("Irreps.D_from_matrix", lambda: o3.Irreps("0o+1o+3e").D_from_matrix(R())),
+                ("Irreps.D_from_matrix(improper)", lambda: o3.Irreps("0o+1o+3e").D_from_matrix(-R())),
+                ("Irreps.D_from_axis_angle", lambda: o3.Irreps("1e+2o").D_from_axis_angle(ax(), an())),
+                ("so3_generators(3)", lambda: o3.so3_generators(3)), ("su2_generators(2)", lambda: o3.su2_generators(2))]
+    if group == "C04":
+        reg += [(f"change_basis_real_to_complex({l})", lambda l=l: o3.change_basis_real_to_complex(l, dtype=torch.float64)) for l in (0, 1, 3)]
+        reg += [("so3_generators(2)", lambda: o3.so3_generators(2))]
+    if group == "C05":
+        for norm in ("component", "norm", "integral"):
+            for nz in (True, False):
+                reg.append((f"spherical_harmonics([0,1,2,3],{nz},{norm})", lambda norm=norm, nz=nz: o3.spherical_harmonics([0, 1, 2, 3], x(), nz, norm)))
+            reg.append((f"spherical_harmonics(11,{norm})", lambda norm=norm: o3.spherical_harmonics(11, x(), True, norm)))
+            reg.append((f"spherical_harmonics_alpha_beta([2,5],{norm})", lambda norm=norm: o3.spherical_harmonics_alpha_beta([2, 5], a, b, normalization=norm)))
+        reg.append(("spherical_harmonics('1x1o+2x3o')", lambda: o3.spherical_harmonics("1x1o+2x3o", x(), True)))
+        reg.append(("Legendre", lambda: o3.Legendre([0, 1, 2, 3, 4])(torch.cos(b), torch.sin(b).abs())))
+    if group == "C11":
+        reg += [("s2_grid", lambda: o3.s2_grid(6, 9, dtype=torch.float64)),
+                ("spherical_harmonics_s2_grid", lambda: o3.spherical_harmonics_s2_grid(3, 6, 9, dtype=torch.float64))]
+    if group == "C12":
+        reg += [("angles_to_matrix", R), ("matrix_to_angles", lambda: o3.matrix_to_angles(R())), ("angles_to_quaternion", q),
+                ("matrix_to_quaternion", lambda: o3.matrix_to_quaternion(R())), ("axis_angle_to_quaternion", lambda: o3.axis_angle_to_quaternion(ax(), an())),
+                ("quaternion_to_axis_angle", lambda: o3.quaternion_to_axis_angle(q())), ("matrix_to_axis_angle", lambda: o3.matrix_to_axis_angle(R())),
+                ("angles_to_axis_angle", lambda: o3.angles_to_axis_angle(a, b, c)), ("axis_angle_to_matrix", lambda: o3.axis_angle_to_matrix(ax(), an())),
+                ("quaternion_to_matrix", lambda: o3.quaternion_to_matrix(q())), ("quaternion_to_angles", lambda: o3.quaternion_to_angles(q())),
+                ("axis_angle_to_angles", lambda: o3.axis_angle_to_angles(ax(), an())), ("compose_angles", lambda: o3.compose_angles(a, b, c, c, a, b)),
+                ("compose_quaternion", lambda: o3.compose_quaternion(q(), o3.angles_to_quaternion(c, a, b))),
+                ("compose_axis_angle", lambda: o3.compose_axis_angle(ax(), an(), ax().flip(-1), an() * 0.5)),
+                ("inverse_angles", lambda: o3.inverse_angles(a, b, c)), ("inverse_quaternion", lambda: o3.inverse_quaternion(q())),
+                ("xyz_to_angles", lambda: o3.xyz_to_angles(x())), ("angles_to_xyz", lambda: o3.angles_to_xyz(a, b)),
+                ("matrix_x", lambda: o3.matrix_x(a)), ("matrix_y", lambda: o3.matrix_y(a)), ("matrix_z", lambda: o3.matrix_z(a))]
+    if group == "C16":
+        xs = lambda: torch.linspace(-0.5, 2.5, 23, dtype=torch.float64)  # noqa: E731
+        for basis in ("gaussian", "cosine", "smooth_finite", "fourier", "bessel"):
+            for cutoff in (True, False):
+                reg.append((f"soft_one_hot_linspace({basis},{cutoff})", lambda basis=basis, cutoff=cutoff: em.soft_one_hot_linspace(xs() + 0.013, 0.0, 2.0, 5, basis, cutoff)))
+        reg += [("soft_unit_step", lambda: em.soft_unit_step(xs()))]
+    if group == "C17":
+        M = lambda: torch.tensor([[1.0, 2.0, 0.0, 1.0], [0.0, 1.0, 1.0, 3.0]], dtype=torch.float64)  # noqa: E731
+        reg += [("direct_sum", lambda: em.direct_sum(M(), M().T.contiguous(), torch.ones(1, 1, dtype=torch.float64))),
+                ("orthonormalize", lambda: em.orthonormalize(M())), ("complete_basis", lambda: em.complete_basis(M()))]
+    if group == "C18":
+        sig = lambda: torch.linspace(-1, 1, 16, dtype=torch.float64)  # noqa: E731
+        st = lambda: io.SphericalTensor(3, 1, -1)  # noqa: E731
+        reg += [("SphericalTensor.signal_xyz", lambda: st().signal_xyz(sig(), x()[:3])),
+                ("SphericalTensor.with_peaks_at", lambda: st().with_peaks_at(x()[:3], t(1.0, -0.5, 2.0))),
+                ("SphericalTensor.sum_of_diracs", lambda: st().sum_of_diracs(x()[:3], t(1.0, -0.5, 2.0))),
+                ("SphericalTensor.norms", lambda: st().norms(sig()))]
+    return reg
+
+
+def _flat_tensors(r):
+    if isinstance(r, torch.Tensor):
+        return [r]
+    if isinstance(r, (tuple, list)):
+        return [y for z in r for y in _flat_tensors(z)]
+    return []
+
+
+def _dev(a, b):
+    if a.shape != b.shape:
+        return float("inf")
+    if a.numel() == 0:
+        return 0.0
+    a, b = a.to(torch.complex128) if a.is_complex() else a.double(), b.to(torch.complex128) if b.is_complex() else b.double()
+    nan_a, nan_b = torch.isnan(a.abs()), torch.isnan(b.abs())
+    if not torch.equal(nan_a, nan_b):
+        return float("inf")
+    d = (a - b).abs()[~nan_a]
+    return float(d.max() / (1 + b.abs()[~nan_b].max())) if d.numel() else 0.0
+
+
+def api_history_and_dtype(ctx, group, dtype_clause=True, skip=()):
+    """see the banner above; `skip` names entries whose dtype clause is a recorded known finding of another property"""
+    old = torch.get_default_dtype()
+    try:
+        for name, fn in _api_registry(group):
+            torch.set_default_dtype(torch.float32)
+            first = [y.clone() for y in _flat_tensors(fn())]
+            r = _flat_tensors(fn())
+            mutated = 0
+            for y in r:
+                if (y.is_floating_point() or y.is_complex()) and not y.requires_grad:
+                    try:
+                        y.mul_(-3.0).add_(1.0)
+                        mutated += 1
+                    except RuntimeError:
+                        pass
+            second = _flat_tensors(fn())
+            ctx.case(f"api-history {group} {name}", nontrivial=mutated > 0, sample_every=5)
+            ctx.traces += 1
+            d = max([_dev(u, v) for u, v in zip(second, first)] + [0.0]) if len(first) == len(second) else float("inf")
+            if d > 1e-13:
+                ctx.violation(f"{name.split('(')[0]}/result-depends-on-call-history", {"call": name, "history": ["call", "in-place edit of the returned tensor(s)", "same call"],
+                              "relative_deviation_of_second_result": d, "default_dtype": "float32", "argument_dtype": "float64"}, True)
+                continue
+            if not dtype_clause or name in skip or name.startswith(("so3_generators", "su2_generators")):   # no tensor argument: default dtype by design
+                continue
+            torch.set_default_dtype(torch.float64)
+            ref = _flat_tensors(fn())
+            ctx.case(f"api-dtype {group} {name}", nontrivial=True, sample_every=5)
+            bad_dtype = [str(u.dtype) for u, v in zip(first, ref) if u.dtype != v.dtype]
+            d = max([_dev(u, v) for u, v in zip(first, ref)] + [0.0]) if len(first) == len(ref) else float("inf")
+            if bad_dtype or d > 1e-12:
+                ctx.violation(f"{name.split('(')[0]}/float64-result-depends-on-default-dtype", {"call": name, "argument_dtype": "float64",
+                              "relative_deviation_between_float32_default_and_float64_default": d, "result_dtypes_under_float32_default": bad_dtype or "same"}, True)
+    finally:
+        torch.set_default_dtype(old)
